@@ -63,7 +63,7 @@ def c18(ctx):
 
 def c20(ctx):
     ctx.gotest("compression", "^TestVerifC20", race=False, timeout=1800)
-    ctx.gotest("tracer", "^TestVerifC20", race=False, timeout=600)
+    ctx.gotest("tracer", "^TestVerifC20", race=True, timeout=900)
     ctx.gotest("internal", "^TestVerifC20", race=False, timeout=600)
     ctx.gotest("refserver", "^TestVerifC20", race=False, timeout=900)
     if "refclient" in PKG_HAS and "c20" in PKG_HAS["refclient"]:
